@@ -14,6 +14,8 @@ import TableauVerif.Spec.C12
 import TableauVerif.Model.Time
 import TableauVerif.Spec.C20
 import TableauVerif.Model.TextFmt
+import TableauVerif.Model.Path
+import TableauVerif.Spec.C18
 import TableauVerif.Model.Options
 import TableauVerif.Model.Excel
 import TableauVerif.Model.Xerrors
@@ -290,6 +292,28 @@ def c04 (fn : String) (a : List String) : Option String := do
   | "o.c16.hist", args => some (if args.getLast? == some "same" then "holds" else "FAILS")
   | _, _ => none
 
+/-! ### C18 (cleanup of the proto output dir) -/
+def decStrList? (s : String) : Option (List Str) :=
+  if s.isEmpty then some [] else (s.splitOn ",").mapM decStr?
+
+def sortStrs (l : List Str) : List Str := (l.toArray.qsort (fun a b => Val.listLt a b)).toList
+
+def c18 (fn : String) (a : List String) : Option String := do
+  match fn, a with
+  | "c18.prep", [files, imports] =>
+    let fs ← decStrList? files; let im ← decStrList? imports
+    let left := (Path.prepareOutdir im (fs.map (·, false))).map (·.1)
+    some (",".intercalate ((sortStrs left).map encStr))
+  | "o.c18.prep", [files, imports, obs] =>
+    let fs ← decStrList? files; let im ← decStrList? imports
+    if obs.endsWith "REMOVED" then some "FAILS" else
+    let after ← decStrList? obs
+    some (if Spec.C18.holdsPrep im (sortStrs fs) after then "holds" else "FAILS")
+  | "c18.clean", [p] => some (encStr (Path.clean (← decStr? p)))
+  | "c18.incr", [_] => some "same"       -- the model of a run is a function of the named books' inputs
+  | "o.c18.incr", [_, obs] => some (if obs == "same" then "holds" else "FAILS")
+  | _, _ => none
+
 def dispatch (line : String) : String :=
   match line.splitOn "\t" with
   | [] => "bad-op"
@@ -305,6 +329,7 @@ def dispatch (line : String) : String :=
       else if fn.startsWith "c20." || fn.startsWith "o.c20." then c20 fn args
       else if fn.startsWith "c05." || fn.startsWith "o.c05." then c05 fn args
       else if fn.startsWith "c11." || fn.startsWith "o.c11." then c11 fn args
+      else if fn.startsWith "c18." || fn.startsWith "o.c18." then c18 fn args
       else if fn.startsWith "c04." || fn.startsWith "o.c04." || fn.startsWith "c16." || fn.startsWith "o.c16." || fn.startsWith "c06." || fn.startsWith "o.c06." then c04 fn args
       else if fn.startsWith "tp." || fn.startsWith "o.tp." || fn.startsWith "c01." || fn.startsWith "o.c01." || fn.startsWith "w.c01." then tp fn args
       else none
